@@ -37,7 +37,8 @@ EXPLANATION = (
     'caller-supplied values are escapes). R6: Attribute(user_defined=True) is emitted exactly for '
     'user-defined field types and __set__ picks validate_type_only exactly then. R7: top-level '
     'primitives are decoded with validation on. Decides these structural parts, not value '
-    'behaviour.')
+    'behaviour.'
+    ' R8 (imported from C06-R3): decoding a primitive refuses only by ValidationError -- base64/strptime failures are converted.')
 ASSUMPTIONS = [
     'the reading of bounds is the one the property quantifies with (bound-1, bound, bound+1: the '
     'bound itself is admissible); the language reference does not spell out inclusiveness',
@@ -509,7 +510,9 @@ def run(pm, ctx):
         for c in vcalls), 'make_stone_friendly validates when asked', msf.loc,
         msg='make_stone_friendly does not validate under its validate flag',
         key='C08-R7|%s|flag' % msf.qualname)
-
+    ctx.import_rules(pm, 'C06', {'C06-R3'}, 'C08-R8',
+                     'library calls on untrusted scalars convert every library exception to '
+                     'ValidationError (shared with C06-R3)')
 
 def _anchoring(init_func, method):
     """Classify how the runtime compiles the pattern: 'whole' | 'prefix' | 'search' | '?'"""
